@@ -312,6 +312,9 @@ func (cs *Contracts) loadFile(path string) error {
 			cur.FreeReq = append(cur.FreeReq, cl)
 		case "creation-requires":
 			cur.CreateReq = append(cur.CreateReq, cl)
+		case "own-errors":
+			cur.Opts["own-errors"] = arg
+			lastClause = nil
 		case "frame-seam":
 			fs2 := strings.SplitN(arg, " ", 2)
 			if len(fs2) < 2 {
